@@ -419,6 +419,19 @@ func NewChildRun(id, tier string) *Run {
 	return r
 }
 
+// Export returns the in-memory report of a (child) run, for merging
+// per-worker runs of one process in a deterministic order.
+func (r *Run) Export() *Blob {
+	r.mu.Lock()
+	defer r.mu.Unlock()
+	b := &Blob{Evals: r.evals, Counters: r.counters, Maxima: r.maxima, Classes: r.classes, Samples: r.samples,
+		Violations: r.violations, ViolSigs: r.violSigs, Inconcl: r.inconcl, Extra: r.extra}
+	for k := range r.distinct {
+		b.Distinct = append(b.Distinct, hex.EncodeToString([]byte(k)))
+	}
+	return b
+}
+
 // BlobLine returns the one-line JSON report of a child, prefixed for parsing.
 func (r *Run) BlobLine() string {
 	r.mu.Lock()
